@@ -322,8 +322,6 @@ def check(case):
                         if isinstance(ctx, set) and (items[k].get('type'), items[k].get('target')) not in ctx:
                             V.append((f'{code}:context', f'{code} on [{tag}]: {k} -> {items[k]} expected one of {sorted(ctx)}', None, one))
                 digs.append(runner.digest([sel, [(c, sorted(rep[c]['items'])) for c in want]]))
-            if L != keep:
-                V.append(('validate:mutates-lexicon', f'[{tag}]', None, one))
             # E204 / E401 => add must reject and change nothing
             if ref['E204'] or ref['E401']:
                 env.restore(snap)
